@@ -84,6 +84,7 @@ static int g_lib_fill = SIM_FILL_A5;
 static uint64_t g_lib_fill_seed = 1;
 static uint64_t g_heap_seed;
 static int g_heap_ready;
+static int g_ncache;
 // the heap is only ever entered by the one running task or by main while no task runs; a spin lock keeps
 // the (rare) real concurrency during thread start-up/tear-down safe.
 static volatile int g_heap_lock;
@@ -100,6 +101,7 @@ void sim_heap_init(uint64_t seed) {
   g_lib_seq = 0;
   g_lib_bytes = 0;
   g_lib_live = 0;
+  g_ncache = 0;
   g_heap_ready = 1;
 }
 
@@ -246,10 +248,42 @@ void* sim_alloc(size_t bytes, int place, int off8, int fill, uint64_t fill_seed,
   return b->start;
 }
 
+// optional LIFO reuse of released library blocks of equal size (what a real allocator's per-size cache does): the same
+// address comes back for the next object of that size. Off in the tsan flavour (TSan would pair accesses of two lifetimes).
+#define MAXCACHE 48
+static blk_t* g_cache[MAXCACHE];
+static int g_reuse;
+void sim_set_reuse(int on) {
+#if SIM_FLAVOUR == SIM_TSAN
+  (void)on;
+  g_reuse = 0;
+#else
+  g_reuse = on;
+#endif
+}
+static void really_release(blk_t* b) {
+#if SIM_FLAVOUR == SIM_ASAN
+  __asan_poison_memory_region(b->map_base, b->map_len);
+#endif
+  mprotect(b->map_base, b->map_len, PROT_NONE);
+  madvise(b->map_base, b->map_len, MADV_DONTNEED);
+}
 static void release_block(blk_t* b) {
   if (!b->live) die("simrt: double free of simulated block");
   b->live = 0;
   if (b->is_lib) g_lib_live--;
+  if (g_reuse && b->is_lib && b->bytes > 0 && b->bytes <= (1u << 22)) {
+#if SIM_FLAVOUR == SIM_ASAN
+    __asan_poison_memory_region(b->map_base, b->map_len);
+#endif
+    if (g_ncache == MAXCACHE) {
+      really_release(g_cache[0]);
+      memmove(&g_cache[0], &g_cache[1], sizeof(g_cache[0]) * (MAXCACHE - 1));
+      g_ncache--;
+    }
+    g_cache[g_ncache++] = b;
+    return;
+  }
   // never reused: stays PROT_NONE for the rest of the run (use-after-free faults)
 #if SIM_FLAVOUR == SIM_ASAN
   __asan_poison_memory_region(b->map_base, b->map_len);
@@ -376,10 +410,29 @@ static int in_sim_heap(const void* p) {
     if (a >= g_chunk[c].base && a < g_chunk[c].end) return 1;
   return 0;
 }
+static blk_t* cache_take(size_t size, size_t align) {
+  for (int i = g_ncache - 1; i >= 0; --i) {
+    blk_t* b = g_cache[i];
+    if (b->bytes == size && (((uintptr_t)b->start) & (align - 1)) == 0) {
+      memmove(&g_cache[i], &g_cache[i + 1], sizeof(g_cache[0]) * (size_t)(g_ncache - 1 - i));
+      g_ncache--;
+      b->live = 1;
+      b->seq = ++g_lib_seq;
+      g_lib_bytes += size;
+      g_lib_live++;
+#if SIM_FLAVOUR == SIM_ASAN
+      __asan_unpoison_memory_region(b->start, (size + 7) & ~(size_t)7);
+#endif
+      return b;
+    }
+  }
+  return NULL;
+}
 static void* lib_alloc(size_t size, size_t align, int zero) {
   if (align < 16) align = 16;
   hlock();
-  blk_t* b = new_block(size, align, 0, 0, 1, -1);
+  blk_t* b = g_reuse && size ? cache_take(size, align) : NULL;
+  if (!b) b = new_block(size, align, 0, 0, 1, -1);
   hunlock();
   if (size) {
     if (zero)
